@@ -103,3 +103,23 @@ Definition texts_ok (v : uav) : bool :=
   | VNodeId n => nid_ok n
   | _ => true
   end.
+
+(* UAVariant.__post_init__ without an explicit type: the built-in Type number is inferred from the EXACT class of the value
+   (ua_class_type_to_variant_type.get(type(value))); classes outside the table raise *)
+Definition variant_type_of (v : uav) : option Z :=
+  match v with
+  | VBool _ => Some 1
+  | VInt KSByte _ => Some 2 | VInt KByte _ => Some 3 | VInt KInt16 _ => Some 4 | VInt KUInt16 _ => Some 5
+  | VInt KInt32 _ => Some 6 | VInt KUInt32 _ => Some 7 | VInt KInt64 _ => Some 8 | VInt KUInt64 _ => Some 9
+  | VEnum _ _ _ => Some 6
+  | VFloat false _ => Some 10 | VFloat true _ => Some 11
+  | VString _ => Some 12 | VDateTime _ => Some 13 | VGuid _ => Some 14 | VByteString _ => Some 15
+  | VXmlRaw _ | VXmlTree _ => Some 16
+  | VNodeId _ => Some 17 | VLocText _ _ => Some 21 | VExtObj _ _ => Some 22
+  | VEUInfo _ _ _ _ _ _ | VRange _ _ | VList _ _ | VNone => None
+  end%Z.
+Definition json_encode_variant_auto (E : ext) (v : option uav) : res (option str) :=
+  match v with
+  | None => json_encode_j E (JVariant None 0)
+  | Some x => match variant_type_of x with Some t => json_encode_j E (JVariant (Some x) t) | None => Err EValue end
+  end.
